@@ -1043,9 +1043,26 @@ def impl_execute(db, qj: dict, mode: str):
                 outs = [{'ok': got}]
         except Exception as e:  # noqa: BLE001
             outs = [{'err': exc_kind(e)}]
+    elif mode == 'mutate' and qj.get('mut') and 'sample' not in qj and isinstance((qj.get('filter') or {}).get(qj['mut'][0]), list):
+        # the filter of a live query object is changed in place between two runs (list.append on one of its list-valued
+        # conditions): the second answer must be the answer for the filter the object carries NOW, i.e. equal to a fresh
+        # query built with the changed filter
+        import copy
+
+        name, value = qj['mut']
+        try:
+            outs.append(mat(db(q)))
+            getattr(q.filter, name).append(value)
+            again = mat(db(q))
+            qj2 = copy.deepcopy(qj)
+            qj2['filter'][name] = list(qj2['filter'][name]) + [value]
+            fresh = mat(db(make_query(qj2)))
+            outs.append(dict(outs[0]) if again == fresh else {'err': 'internal:StaleAnswerAfterFilterChange'})
+        except Exception as e:  # noqa: BLE001
+            outs.append({'err': exc_kind(e)})
     else:
-        if mode in ('interleave', 'nested'):
-            mode = 'twice'
+        if mode in ('interleave', 'nested', 'mutate'):
+            mode = 'twice' 
         for _ in range({'once': 1, 'twice': 2, 'x4': 4}[mode]):
             try:
                 outs.append(mat(db(q)))
@@ -1311,7 +1328,16 @@ def gen_sem_cases(rng, info: DBInfo, n: int):
     cases = []
     for _ in range(n):
         q = gen_query(rng, pools)
-        mode = str(rng.choice(['once', 'once', 'twice', 'live2', 'interleave', 'nested']))
+        mode = str(rng.choice(['once', 'once', 'twice', 'live2', 'interleave', 'nested', 'mutate']))
+        if mode == 'mutate':
+            lists = [k for k, v in (q.get('filter') or {}).items() if isinstance(v, list) and v and not k.endswith('bounding_box')]
+            if lists:
+                name = str(rng.choice(sorted(lists)))
+                pool = pools['service'] if name == 'service_type' else pools['aircraft'] if name == 'aircraft_type' else \
+                    pools['continent'] if name.endswith('continent') else pools['country'] if name.endswith('country') else pools['iata']
+                cand = [x for x in pool if x not in q['filter'][name]]
+                if cand:
+                    q['mut'] = [name, cand[int(rng.integers(0, len(cand)))]]
         cases.append({'type': 'sem', 'q': q, 'mode': mode})
     # structured: empty filter, everything, paging, repeated sampling
     cases.append({'type': 'sem', 'q': {'kind': 'query', 'filter': {}}, 'mode': 'once'})
